@@ -1,22 +1,10 @@
 // API instantiation sweep, area `util`: fwd.hpp, util/{result,intrusive_ptr,helper,cast,ref,func,type_traits,fail_policy,
 // combinator_strategy}.hpp, log.hpp.  C++17-clean (also compiled with -std=c++17 against a library without coroutines).
-#ifdef API_PROBE_KNOWN_1
-// KNOWN_1 (a, minor): util/cast.hpp uses YACLIB_ASSERT but does not include <yaclib/log.hpp>: DownCast cannot be
-// instantiated by a TU whose first yaclib include is util/cast.hpp ("'YACLIB_ASSERT' was not declared in this scope").
-// notes/api_probe.md #1.  Has to stay in front of every other include.
+// util/cast.hpp is deliberately the FIRST yaclib include: DownCast (probe::Casts below) uses YACLIB_ASSERT, and the header did not
+// include <yaclib/log.hpp> before /repo b3ff916, so a TU that starts with it could not instantiate DownCast (notes/api_probe.md #1).
 #include <yaclib/util/cast.hpp>
-namespace known1 {
-struct B {
-  virtual ~B() = default;
-};
-struct D : B {};
-inline D& Use(B& b) {
-  return yaclib::DownCast<D>(b);
-}
-}  // namespace known1
-#endif
+// (no other yaclib header may be moved above this line)
 #include <yaclib/log.hpp>
-#include <yaclib/util/cast.hpp>
 #include <yaclib/fwd.hpp>
 #include <yaclib/util/combinator_strategy.hpp>
 #include <yaclib/util/fail_policy.hpp>
@@ -287,11 +275,11 @@ void Log() {
 int api_probe_util(int argc) {
   if (argc > 1000) {
     probe::ResultInPlace();
-    probe::Casts();
     probe::MoveIf();
     probe::Enums();
   }
   // smoke
+  probe::Casts();  // DownCast / UpCast with cast.hpp as the first include (#1, /repo b3ff916)
   probe::IntrusivePtrMembers();
   probe::ResultMembersAllV<probe::UserError>();
   probe::Log();
